@@ -261,3 +261,48 @@ func ManyExtendersEach(want func(i int) bool, f func(i int, fs FileSet)) int {
 	}
 	return n
 }
+
+// TwoTargetsEach: one file extends TWO different types (t1, which has r1, and t4, which has q) in either order, adding to each a
+// relation that the other type already has, a fresh one, or one the type itself has; the base types stand in one file or in
+// two, and a further file may extend one of them as well.
+func TwoTargetsEach(want func(i int) bool, f func(i int, fs FileSet)) int {
+	t1 := ref.TypeDef{Name: "t1", Rels: []ref.Relation{rel("r1")}}
+	t4 := ref.TypeDef{Name: "t4", Rels: []ref.Relation{rel("q")}}
+	user := ref.TypeDef{Name: "user"}
+	n := 0
+	for _, split := range []bool{false, true} {
+		for _, t1First := range []bool{true, false} {
+			for _, x := range []string{"q", "e", "r1"} {
+				for _, y := range []string{"r1", "e", "q"} {
+					for _, third := range []string{"none", "extend-t4-r1", "extend-t1-q"} {
+						if want == nil || want(n) {
+							fs := FileSet{Tag: fmt.Sprintf("two-targets: base in two files=%v | b.fga: extend t1 with %s, extend t4 with %s (t1 first=%v) | d.fga: %s", split, x, y, t1First, third)}
+							if split {
+								fs.Files = append(fs.Files, FileSpec{Name: fileNames[0], M: &ref.Model{Module: moduleNames[0], Types: []ref.TypeDef{user, t1}}},
+									FileSpec{Name: fileNames[2], M: &ref.Model{Module: moduleNames[2], Types: []ref.TypeDef{t4}}})
+							} else {
+								fs.Files = append(fs.Files, FileSpec{Name: fileNames[0], M: &ref.Model{Module: moduleNames[0], Types: []ref.TypeDef{user, t1, t4}}})
+							}
+							e1 := ref.TypeDef{Name: "t1", Extend: true, Rels: []ref.Relation{rel(x)}}
+							e4 := ref.TypeDef{Name: "t4", Extend: true, Rels: []ref.Relation{rel(y)}}
+							exts := []ref.TypeDef{e1, e4}
+							if !t1First {
+								exts = []ref.TypeDef{e4, e1}
+							}
+							fs.Files = append(fs.Files, FileSpec{Name: fileNames[1], M: &ref.Model{Module: moduleNames[1], Types: exts}})
+							switch third {
+							case "extend-t4-r1":
+								fs.Files = append(fs.Files, FileSpec{Name: fileNames[3], M: &ref.Model{Module: moduleNames[3], Types: []ref.TypeDef{{Name: "t4", Extend: true, Rels: []ref.Relation{rel("r1")}}}}})
+							case "extend-t1-q":
+								fs.Files = append(fs.Files, FileSpec{Name: fileNames[3], M: &ref.Model{Module: moduleNames[3], Types: []ref.TypeDef{{Name: "t1", Extend: true, Rels: []ref.Relation{rel("q")}}}}})
+							}
+							f(n, fs)
+						}
+						n++
+					}
+				}
+			}
+		}
+	}
+	return n
+}
